@@ -46,6 +46,9 @@ bool g_in_lock[MAXT];   // between AcqCall and AcqRet
 int g_barrier_target = 0;
 int g_barrier_inside = 0;
 bool g_main_hold = false;
+bool g_main_gate = false;   // hold=2: main keeps its write lock until every worker is parked, then lets the late workers request and park too
+bool g_late[MAXT];          // worker starts only after main opened the gate
+bool g_late_go = false;
 bool g_idle_check = true;
 bool g_nested = false;
 
@@ -92,6 +95,7 @@ void do_pair(int t, Op op) {
 }
 
 void worker(int t) {
+    if (g_late[t]) vs::block_until("late", [] { return g_late_go; });
     for (;;) {
         vs::yield("idle");
         Op op;
@@ -120,6 +124,11 @@ void scenario() {
     std::vector<std::thread> ths;
     for (int i = 1; i <= g_n; ++i) ths.emplace_back(worker, i);
     if (g_main_hold) {
+        if (g_main_gate) {
+            vs::wait_quiescent("parked");       // every early worker waits behind main's write lock
+            g_late_go = true;
+            vs::wait_quiescent("lateparked");   // ... and the late ones queue up behind them
+        }
         vs::yield("mainhold");
         ev("RelCall", 0, K_WRITE);
         res.unlockWrite();
@@ -281,6 +290,8 @@ void run_exec(const Execution &ex) {
     g_n = (int) ex.cfg.num("n", 2);
     g_scripted = ex.cfg.str("mode", "script") == "script";
     g_main_hold = ex.cfg.num("hold", 0) != 0;
+    g_main_gate = ex.cfg.num("hold", 0) == 2;
+    g_late_go = false;
     g_idle_check = ex.cfg.num("idlecheck", 1) != 0;
     g_nested = false;
     g_barrier_target = (int) ex.cfg.num("barrier", 0);
@@ -292,6 +303,7 @@ void run_exec(const Execution &ex) {
         g_pairs_done[t] = 0;
         g_kind_now[t] = 0;
         g_in_lock[t] = false;
+        g_late[t] = false;
     }
     Ctl ctl;
     const uint32_t macro = vs::bit(vs::OP_MARK) | vs::bit(vs::OP_NOTIFY_ALL) | vs::bit(vs::OP_NOTIFY_ONE) | vs::STOP_PARKED | vs::STOP_FINISHED;
@@ -344,6 +356,11 @@ void run_exec(const Execution &ex) {
         while (i < prog.size() && t < MAXT) {
             if (prog[i] == ':') {
                 ++t;
+                ++i;
+                continue;
+            }
+            if (prog[i] == 'L') {   // LWr: this worker is a late one (see hold=2)
+                g_late[t] = true;
                 ++i;
                 continue;
             }
